@@ -204,6 +204,15 @@ func genC05Files(c *ctx) []*mfile {
 		f.Name = fmt.Sprintf("jpeg-%dx%d-p%d-c%d-prog%v-nojfif%v", o.w, o.h, prec, o.ncomp, prog, o.noJFIF)
 		out = append(out, f)
 	}
+	// JPEG carrying a (possibly damaged) multi-chunk profile before the frame header: the basic metadata must
+	// not depend on it
+	for j, dmg := range []string{"", "dup", "seqhigh", "seq0", "total", "drop", "dup", "total"} {
+		o := jpegOpt{w: uint16(dj[rng.Intn(len(dj))]), h: uint16(dj[rng.Intn(len(dj))]), precision: 8, ncomp: 3, progressive: j%2 == 1, nBefore: rng.Intn(3), nAfter: rng.Intn(3),
+			icc: genProfile(rng, 300+rng.Intn(400), false), chunkSize: 100, damage: dmg, body: rng.Intn(100), realTables: tables}
+		f := buildJPEG(rng, o)
+		f.Name = fmt.Sprintf("jpeg-icc-%s-%dx%d", dmg, o.w, o.h)
+		out = append(out, f)
+	}
 	for j := 0; j < c.n(6, 60); j++ {
 		w, h := 1+rng.Intn(70), 1+rng.Intn(50)
 		f := stdlibJPEG(rng, w, h, j%2 == 0)
